@@ -46,13 +46,15 @@ pub struct Mon {
     pub c03: bool,
     pub c08: bool,
     pub c10: bool,
+    /// property whose step oracle (crate::oracle) runs after every transaction
+    pub prop: &'static str,
 }
 impl Mon {
     pub fn none() -> Mon {
         Mon::default()
     }
-    pub fn only(p: &str) -> Mon {
-        Mon { c01: p == "C01", c02: p == "C02", c03: p == "C03", c08: p == "C08", c10: p == "C10" }
+    pub fn only(p: &'static str) -> Mon {
+        Mon { c01: p == "C01", c02: p == "C02", c03: p == "C03", c08: p == "C08", c10: p == "C10", prop: p }
     }
 }
 
@@ -76,6 +78,7 @@ pub struct StepRec {
     pub post: Snap,
     pub tx: Tx,
     pub what: String,
+    pub obs: crate::oracle::PreObs,
 }
 
 pub struct Run {
@@ -133,12 +136,14 @@ impl Run {
     pub fn step(&mut self, op: Op) -> StepRec {
         self.steps += 1;
         let pre = self.snap();
+        let obs = crate::oracle::pre_obs(self, &op, &pre);
         let tx = self.exec(&op);
         let post = self.snap();
         self.w.observe();
         let what = format!("{}:{}", op.name(), if tx.ok { "ok" } else { "failed" });
-        let rec = StepRec { op, pre, post, tx, what };
+        let rec = StepRec { op, pre, post, tx, what, obs };
         self.monitors(&rec);
+        crate::oracle::step_oracle(self, &rec);
         rec
     }
 
